@@ -4,7 +4,7 @@ rs2lean_buf.py — second translator: the index-manipulating core of `impl Fixed
 state-and-panic monad `M` of lean/FBV/Model/Buf.lean, using the SAME checked primitives as the hand model
 (`usizeAdd`/`usizeSub` per profile, `slice`, `writeAt`, `panicM`).  On every run of checks C01 / C03 / C04 the methods
 
-    len  is_empty  clear  readable  writable  read_bytes  wrote  shift  try_read_bytes  read_all
+    len  is_empty  clear  readable  writable  read_bytes  wrote  shift  try_read_bytes  read_all  read_byte  try_read_byte
 
 are re-translated from /repo's working tree into lean/FBV/Gen/BufMethods.lean and FBV/Props/BufGen.lean re-proves each
 translated method equal, as a function of the state, to the hand-written model method the C01/C03/C04/C10/C11 theorems are
@@ -28,7 +28,7 @@ OUT = os.path.join(os.path.dirname(os.path.abspath(__file__)), "..", "lean", "FB
 # method -> (Lean return type, mutating?)
 TARGETS = [("len", "Nat"), ("is_empty", "Bool"), ("clear", "Unit"), ("readable", "List Byte"), ("writable", "List Byte"),
            ("read_bytes", "List Byte"), ("wrote", "Unit"), ("shift", "Unit"), ("try_read_bytes", "Option (List Byte)"),
-           ("read_all", "List Byte")]
+           ("read_all", "List Byte"), ("read_byte", "Byte"), ("try_read_byte", "Option Byte")]
 RET = dict(TARGETS)
 FIELDS = {"read_index": "ri", "write_index": "wi"}
 
@@ -243,9 +243,17 @@ class P:
                 if self.at(","):
                     self.next()
             self.expect(")")
-            if self.at("[", ".", "?"):
+            e = ("call", name, args)
+            if self.at("["):
+                self.next()
+                i = self.expr()
+                if self.at(".."):
+                    raise Unsupported("sub-slice of a method result")
+                self.expect("]")
+                return ("at", e, i)
+            if self.at(".", "?"):
                 raise Unsupported("postfix on a method result")
-            return ("call", name, args)
+            return e
         self.next()
         if self.at("(", "::", "!", ".", "["):
             raise Unsupported("use of %s" % v)
@@ -343,6 +351,10 @@ class T:
                     return "(getB >>= fun %s => (liftO (slice %s.mem %s %s.mem.length) >>= fun %s => %s))" % (b, b, a, b, s, k(s))
                 return self.ev(x[2], lambda h: "(getB >>= fun %s => (liftO (slice %s.mem %s %s) >>= fun %s => %s))" % (b, b, a, h, s, k(s)))
             return self.ev(lo, with_hi)
+        if t == "at":
+            v = self.fresh()
+            return self.ev(x[1], lambda sl: self.ev(x[2], lambda i:
+                   "((match %s[%s]? with | some x => pure x | none => panicM) >>= fun %s => %s)" % (sl, i, v, k(v))))
         if t == "none":
             return k("none")
         if t == "some":
